@@ -924,3 +924,17 @@ def cases(tier, seed):
         for what in ("mixed-product", "maximally-mixed", "trace", "negative", "nonhermitian"):
             add("fos.rejects", dict(dims=list(dm), what=what, field="complex", seed=seed), "fos/reject-%s/%dx%d" % ((what,) + dm))
     return out
+
+
+# =============================================================================================
+# deductive part (prover side) and its replay clauses
+# =============================================================================================
+from props.C13_prove import EXTRA_CLAUSES as _EXTRA  # noqa: E402
+from props.C13_prove import prove  # noqa: E402,F401
+
+CLAUSES.update(_EXTRA)
+LEVEL = "other"
+ENGINES = ["E1-pyvc", "E3-E4-rtc"]
+LEVEL_TEXT = 'Mixed. Proved (E1-term, over uninterpreted library operations and callee contracts): trace_norm, trace_distance, helstrom_holevo, hilbert_schmidt, bures_distance, bures_angle, sub_fidelity, fidelity and the Hilbert-Schmidt inner product compute their documented formulas (machine arithmetic treated as mathematical). Everything the formulas are supposed to satisfy (agreement with independently computed definitions, symmetry, invariance, extreme values, metric axioms, inequalities, rejection of non-density inputs, fidelity of separability) is a bounded run-time contract check.'
+EXPLANATION = LEVEL_TEXT
+TECHNIQUE = "formula contracts over uninterpreted library operations, VCs from the real AST discharged by z3 (E1-term) + bounded run-time-checked contracts on the real functions"
